@@ -211,6 +211,12 @@ Proof. exact register_wf. Qed.
 Theorem duplicate_registration_refused : forall reg k t,
   In k (map fst reg) \/ In (snd (strip_ptr t)) (map snd reg) -> exists e, register reg k t = Err e.
 Proof. exact register_refuses. Qed.
+Theorem fresh_registration_accepted : forall reg k t,
+  ~ In k (map fst reg) -> ~ In (snd (strip_ptr t)) (map snd reg) ->
+  exists reg', register reg k t = Ok reg' /\
+               rm_lookup reg' (snd (strip_ptr t)) = Some k /\ m_lookup reg' k = Some (snd (strip_ptr t)) /\
+               forall t0 k0, rm_lookup reg t0 = Some k0 -> rm_lookup reg' t0 = Some k0.
+Proof. exact register_accepts_fresh. Qed.
 Theorem process_registry_wellformed : forall l, reg_wf (register_all (ckpt_reg []) l).
 Proof. intro l. exact (register_all_wf l _ ckpt_reg_wf). Qed.
 Theorem checkpoint_roundtrip_any_registrations :
